@@ -25,12 +25,13 @@ WALL = {"quick": 1200, "thorough": 10800}
 MAX_TIMEOUTS = {"quick": 1, "thorough": 20}
 REQUIRED = {"outputs_checked": 150, "atoms_checked": 3000, "box_from_density": 20, "box_from_option": 30,
             "box_from_structure": 30, "with_input_structure": 30, "with_meta_structure": 8, "with_build_res": 8,
-            "with_start": 10, "with_grid": 8, "virtual_site_systems": 20, "zero_mass_atoms": 20}
+            "with_start": 10, "with_grid": 8, "virtual_site_systems": 20, "zero_mass_atoms": 20,
+            "injected_failed_attempts": 50}
 
 
 def plan(tier, seed):
     n = 260 if tier == "quick" else 6000
-    return [["opt", i] for i in range(n)]
+    return [["opt", i] for i in range(n)] + [["faults", i] for i in range(n // 4)]
 
 
 def setup():
@@ -59,7 +60,7 @@ def split_rows(sysd, gro):
     return groups
 
 
-def make_options(rng, sysd, workdir, res, allow=("plain", "c_full", "c_prefix", "c_res", "mc", "dens", "grid", "start", "bvol")):
+def make_options(rng, sysd, workdir, res, allow=("plain", "c_full", "c_prefix", "c_res", "mc", "mc_res", "dens", "grid", "start", "bvol")):
     """returns (kwargs for gen_coords, info dict) ; info: expected box source and supplied groups"""
     info = {"mode": None, "supplied": [], "centres": [], "box_src": None, "box": None}
     mode = rng.choice(allow)
@@ -70,7 +71,7 @@ def make_options(rng, sysd, workdir, res, allow=("plain", "c_full", "c_prefix", 
     if mode == "dens":
         kw["density"] = round(rng.uniform(50, 300), 3)
         info["box_src"] = "density"
-    elif mode in ("c_full", "c_prefix", "c_res", "mc"):
+    elif mode in ("c_full", "c_prefix", "c_res", "mc", "mc_res"):
         base = base_build(sysd, workdir, box)
         if base is None:
             return None, info
@@ -86,7 +87,7 @@ def make_options(rng, sysd, workdir, res, allow=("plain", "c_full", "c_prefix", 
         elif mode == "c_prefix":
             k = rng.randint(1, max(1, len(groups) - 1))
             sup = groups[:k]
-        elif mode == "c_res":
+        elif mode in ("c_res", "mc_res"):
             names = sorted({g["resname"] for g in groups})
             drop = rng.choice(names)
             kw["build_res"] = [drop]
@@ -95,7 +96,7 @@ def make_options(rng, sysd, workdir, res, allow=("plain", "c_full", "c_prefix", 
         else:
             k = rng.randint(max(1, len(groups) // 2), len(groups))
             sup = groups[:k]
-        if mode == "mc":
+        if mode in ("mc", "mc_res"):
             rows = []
             for g in sup:
                 c = np.mean([r["xyz"] for r in g["rows"]], axis=0)
@@ -188,7 +189,14 @@ def run_case(cid, rng, workdir):
         res["status"] = "rejected"
         return res
     outp = Path(workdir) / "o.gro"
-    run, ctx = CC.run_gen_coords(toppath=Path(workdir) / "s.top", outpath=outp, name="x", **kw)
+    ctx_kw = {}
+    if cid[0] == "faults":
+        # schedule clause: the first k molecule attempts fail (injected at RandomWalk.run_molecule), with a small
+        # number of allowed attempts so that the give-up-and-retry branch of the system builder is taken
+        kw["maxiter"] = rng.choice([1, 2])
+        ctx_kw["fail_attempts_left"] = rng.randint(1, 5)
+        bump(res, "injected_failed_attempts", ctx_kw["fail_attempts_left"])
+    run, ctx = CC.run_gen_coords(ctx_kw=ctx_kw, toppath=Path(workdir) / "s.top", outpath=outp, name="x", **kw)
     opts = {k: (v.tolist() if hasattr(v, "tolist") else str(v) if isinstance(v, (Path, list)) else v) for k, v in kw.items()}
     res["sample"] = {"system": T.describe(sysd), "options": opts, "mode": info["mode"]}
     res["sig"] = sig_of([text, opts])
@@ -209,9 +217,9 @@ def run_case(cid, rng, workdir):
     res["nontrivial"] = nmol >= 2 or T.n_residues(sysd) >= 4
     if info["mode"] in ("c_full", "c_prefix", "c_res"):
         bump(res, "with_input_structure")
-    if info["mode"] == "mc":
+    if info["mode"] in ("mc", "mc_res"):
         bump(res, "with_meta_structure")
-    if info["mode"] == "c_res":
+    if info["mode"] in ("c_res", "mc_res"):
         bump(res, "with_build_res")
     if info["mode"] == "start":
         bump(res, "with_start")
